@@ -115,6 +115,7 @@ def _run_entry(args):
             "extra": extra,
             "hosts": ctx.layout.nhosts, "actions": len(ctx.actions),
             "param_transitions": param_transitions,
+            "samples": ctx.samples[:2],
         })
     except HarnessError as e:
         out["error"] = "HARNESS: " + str(e)
@@ -172,6 +173,7 @@ def run_family(pids, tier, opts=None, entries=None):
             agg.setdefault("unknown_actions", []).append([r["name"], r["unknown_actions"]])
         agg["per_scenario"].append([r["name"], r["binding"], r["hosts"], r["actions"], r["states"],
                                     r["transitions"], round(r["wall_s"], 2)])
+        agg.setdefault("transition_samples", []).extend(r.get("samples", [])[:1])
         for v in r["violations"]:
             v["scenario_name"] = r["name"]
             violations.append(v)
